@@ -1,5 +1,396 @@
-//! streaming cases (C11 payload assembly, C12): filled in by tools/c12.py's needs
-use crate::Cur;
-pub fn run(_c: &mut Cur) -> Vec<i128> {
-    vec![-97]
+//! `strm` cases (C12, payload-assembly tie of C11): the real `StreamHandle` / `StreamingLoop::run`
+//! of /repo/cameleon over the scripted bulk-in endpoint of rust/shim, a receiver thread and a
+//! controller (this thread), with a totally ordered trace of every operation at which the three
+//! threads interact (rust/achan `trace`: AsyncPool operations, every payload / send-back channel
+//! operation, start / stop / close marks).
+//!
+//! Case: world items (see main.rs) then
+//!   30 cap_payload cap_back seed permille max_us
+//!   ntransfers { 0 xHEX | 1 code | 2 }*        results of the device's bulk-in endpoint, in order
+//!   nsuberr { index code }*                    submit calls (counted over the run) that fail
+//!   nrecv { op a b }*                          receiver program
+//!        1 k m  receive k items (polling try_recv; gives up once the controller is done and the
+//!               channel is empty)   m: 0 hold | 1 send_back | 2 drop | 3 alternate hold / send_back
+//!        2 us 0 sleep               3 0 0 drop the receiver        4 k m  k single try_recv attempts
+//!   nctl { op a b c }*                         controller program
+//!        10 start | 11 stop | 12 us sleep | 13 n wait until <= n transfers remain |
+//!        14 close | 15 drop the handle | 16 n wait until the receiver got n items |
+//!        17 addr width value poke device memory
+//! Output: 0 nitems item* -4 nheld flag* -3 nres res* -5 nev (role kind a b)* -6 remaining waits_timed_out
+//!   item = 0 id type valid ts has w h xo yo pf isz  pv(st len hash) iv(st len hash)   (18 ints)  |  1 class
+use std::panic::{catch_unwind, AssertUnwindSafe};
+use std::sync::atomic::{AtomicBool, AtomicU64, AtomicUsize, Ordering};
+use std::sync::{Arc, Once};
+use std::time::{Duration, Instant};
+
+use async_channel::trace;
+use cameleon::camera::PayloadStream;
+use cameleon::payload::{Payload, PayloadReceiver, PayloadType};
+use cameleon::{Camera, DeviceControl, StreamError};
+use cameleon_device::u3v::sim::Transfer;
+
+use crate::{build_world, hash, make_camera, Cur};
+
+static CASE_START_MS: AtomicU64 = AtomicU64::new(0);
+static WATCHDOG: Once = Once::new();
+
+fn now_ms(t0: Instant) -> u64 {
+    t0.elapsed().as_millis() as u64 + 1
+}
+
+/// A case that does not finish (a blocked stop, a dead-locked loop) must not take the batch with
+/// it: the process exits and vplib restarts the harness after the offending line.
+fn arm_watchdog() -> Instant {
+    static mut T0: Option<Instant> = None;
+    WATCHDOG.call_once(|| {
+        let t0 = Instant::now();
+        unsafe { T0 = Some(t0) };
+        std::thread::spawn(move || loop {
+            std::thread::sleep(Duration::from_millis(100));
+            let s = CASE_START_MS.load(Ordering::SeqCst);
+            if s != 0 && now_ms(t0) > s + 8000 {
+                std::process::exit(3);
+            }
+        });
+    });
+    #[allow(static_mut_refs)]
+    unsafe {
+        T0.unwrap()
+    }
+}
+
+pub fn serr_class(e: &StreamError) -> i128 {
+    match e {
+        StreamError::ReceiveError(_) => 1,
+        StreamError::SendError(_) => 2,
+        StreamError::InvalidPayload(_) => 3,
+        StreamError::Disconnected => 4,
+        StreamError::Io(_) => 5,
+        StreamError::Timeout => 6,
+        StreamError::Poisoned(_) => 7,
+        StreamError::BufferTooSmall => 8,
+        StreamError::InStreaming => 9,
+    }
+}
+
+fn describe(p: &Payload) -> Vec<i128> {
+    let mut o = vec![0, p.id() as i128];
+    o.push(match p.payload_type() {
+        PayloadType::Image => 0,
+        PayloadType::ImageExtendedChunk => 1,
+        PayloadType::Chunk => 2,
+    });
+    // valid_payload_size is not public: it is the length of payload() when that does not panic
+    let pv = catch_unwind(AssertUnwindSafe(|| {
+        let s = p.payload();
+        (s.len() as i128, hash(s))
+    }));
+    o.push(match &pv {
+        Ok((n, _)) => *n,
+        Err(_) => -1,
+    });
+    o.push(p.timestamp().as_nanos() as i128);
+    match p.image_info() {
+        Some(ii) => {
+            let code: u32 = ii.pixel_format.into();
+            o.extend([
+                1,
+                ii.width as i128,
+                ii.height as i128,
+                ii.x_offset as i128,
+                ii.y_offset as i128,
+                code as i128,
+                ii.image_size as i128,
+            ]);
+        }
+        None => o.extend([0, 0, 0, 0, 0, 0, 0]),
+    }
+    match pv {
+        Ok((n, h)) => o.extend([0, n, h]),
+        Err(_) => o.extend([2, 0, 0]),
+    }
+    match catch_unwind(AssertUnwindSafe(|| p.image().map(|s| (s.len() as i128, hash(s))))) {
+        Ok(None) => o.extend([0, 0, 0]),
+        Ok(Some((n, h))) => o.extend([1, n, h]),
+        Err(_) => o.extend([2, 0, 0]),
+    }
+    o
+}
+
+fn full_hash(p: &Payload) -> Option<i128> {
+    catch_unwind(AssertUnwindSafe(|| hash(p.payload()))).ok()
+}
+
+struct RecvOut {
+    items: Vec<i128>,
+    nitems: usize,
+    held: Vec<i128>,
+}
+
+fn receiver_thread(
+    rx: PayloadReceiver,
+    prog: Vec<(i128, i128, i128)>,
+    done: Arc<AtomicBool>,
+    got: Arc<AtomicUsize>,
+) -> RecvOut {
+    trace::set_role(2);
+    trace::reseed();
+    let mut rx = Some(rx);
+    let mut out = RecvOut { items: vec![], nitems: 0, held: vec![] };
+    let mut held: Vec<(Payload, Option<i128>)> = vec![];
+    let mut parity = 0usize;
+    let mut handle = |r: Result<Payload, StreamError>, m: i128, rx: &PayloadReceiver, out: &mut RecvOut,
+                      held: &mut Vec<(Payload, Option<i128>)>| {
+        out.nitems += 1;
+        match r {
+            Ok(p) => {
+                out.items.extend(describe(&p));
+                let mode = if m == 3 {
+                    parity += 1;
+                    (parity % 2) as i128
+                } else {
+                    m
+                };
+                match mode {
+                    0 => {
+                        let h = full_hash(&p);
+                        held.push((p, h));
+                    }
+                    1 => rx.send_back(p),
+                    _ => drop(p),
+                }
+            }
+            Err(e) => out.items.extend([1, serr_class(&e)]),
+        }
+        got.fetch_add(1, Ordering::SeqCst);
+    };
+    for (op, a, b) in prog {
+        match op {
+            1 => {
+                let r = match rx.as_ref() {
+                    Some(r) => r,
+                    None => break,
+                };
+                let mut k = 0;
+                while k < a {
+                    let was_done = done.load(Ordering::SeqCst);
+                    let res = r.try_recv();
+                    if trace::last_result() == 0 {
+                        handle(res, b, r, &mut out, &mut held);
+                        k += 1;
+                    } else if was_done {
+                        break;
+                    } else {
+                        std::thread::sleep(Duration::from_micros(150));
+                    }
+                }
+            }
+            2 => std::thread::sleep(Duration::from_micros(a as u64)),
+            3 => {
+                rx = None;
+            }
+            4 => {
+                let r = match rx.as_ref() {
+                    Some(r) => r,
+                    None => break,
+                };
+                for _ in 0..a {
+                    let res = r.try_recv();
+                    if trace::last_result() == 0 {
+                        handle(res, b, r, &mut out, &mut held);
+                    }
+                    std::thread::yield_now();
+                }
+            }
+            _ => panic!("bad receiver op"),
+        }
+    }
+    // payloads still held must be exactly what they were when received
+    for (p, h) in &held {
+        out.held.push(if full_hash(p) == *h { 1 } else { 0 });
+    }
+    drop(held);
+    drop(rx);
+    out
+}
+
+pub fn run(c: &mut Cur) -> Vec<i128> {
+    let t0 = arm_watchdog();
+    CASE_START_MS.store(now_ms(t0), Ordering::SeqCst);
+    let r = run_case(c);
+    CASE_START_MS.store(0, Ordering::SeqCst);
+    r
+}
+
+fn res_code<T>(r: std::thread::Result<Result<T, StreamError>>) -> i128 {
+    match r {
+        Ok(Ok(_)) => 0,
+        Ok(Err(e)) => 100 + serr_class(&e),
+        Err(_) => 2,
+    }
+}
+
+fn run_case(c: &mut Cur) -> Vec<i128> {
+    let mut w = build_world(c);
+    assert_eq!(c.int(), 30);
+    let cap_p = c.int() as usize;
+    let cap_b = c.int() as usize;
+    let seed = c.int() as u64;
+    let permille = c.int() as u64;
+    let max_us = c.int() as u64;
+    for _ in 0..c.int() {
+        match c.int() {
+            0 => {
+                let d = c.bytes();
+                w.transfers.push_back(Transfer::Data(d))
+            }
+            1 => w.transfers.push_back(Transfer::Err(c.int() as u8)),
+            _ => w.transfers.push_back(Transfer::Timeout),
+        }
+    }
+    for _ in 0..c.int() {
+        let k = c.int() as usize;
+        w.submit_errs.insert(k, c.int() as u8);
+    }
+    let mut rprog = vec![];
+    for _ in 0..c.int() {
+        rprog.push((c.int(), c.int(), c.int()));
+    }
+    let mut cprog = vec![];
+    for _ in 0..c.int() {
+        let op = c.int();
+        let (a, b, d) = match op {
+            12 | 13 | 16 => (c.int(), 0, 0),
+            17 => (c.int(), c.int(), c.int()),
+            _ => (0, 0, 0),
+        };
+        cprog.push((op, a, b, d));
+    }
+
+    let (world, cam) = make_camera(w);
+    let Camera { mut ctrl, strm, .. } = cam;
+    let mut strm = Some(strm);
+    let mut res: Vec<i128> = vec![];
+    if ctrl.open().is_err() || strm.as_mut().unwrap().open().is_err() {
+        std::mem::forget(ctrl);
+        return vec![-96];
+    }
+
+    trace::set_role(0);
+    trace::reseed();
+    trace::begin(seed, permille, max_us);
+    let (sender, receiver) = cameleon::payload::channel(cap_p, cap_b);
+    let done = Arc::new(AtomicBool::new(false));
+    let got = Arc::new(AtomicUsize::new(0));
+    let rt = {
+        let (done, got) = (done.clone(), got.clone());
+        std::thread::spawn(move || receiver_thread(receiver, rprog, done, got))
+    };
+    let mut waits_timed_out = 0;
+    let wait = |cond: &dyn Fn() -> bool| -> bool {
+        let t = Instant::now();
+        while !cond() {
+            if t.elapsed() > Duration::from_millis(3000) {
+                return false;
+            }
+            std::thread::sleep(Duration::from_micros(100));
+        }
+        true
+    };
+    for (op, a, b, d) in cprog {
+        match op {
+            10 => {
+                if let Some(s) = strm.as_mut() {
+                    trace::mark(20, 0, 0);
+                    let snd = sender.clone();
+                    let r = catch_unwind(AssertUnwindSafe(|| s.start_streaming_loop(snd, &mut ctrl)));
+                    let code = res_code(r);
+                    trace::mark(21, code as i64, 0);
+                    res.push(code);
+                }
+            }
+            11 => {
+                if let Some(s) = strm.as_mut() {
+                    trace::mark(22, if s.is_loop_running() { 1 } else { 0 }, 0);
+                    let r = catch_unwind(AssertUnwindSafe(|| s.stop_streaming_loop()));
+                    let code = res_code(r);
+                    trace::mark(23, code as i64, 0);
+                    res.push(code);
+                }
+            }
+            12 => std::thread::sleep(Duration::from_micros(a as u64)),
+            13 => {
+                if !wait(&|| world.lock().unwrap().transfers.len() <= a as usize) {
+                    waits_timed_out += 1;
+                }
+            }
+            14 => {
+                if let Some(s) = strm.as_mut() {
+                    trace::mark(26, if s.is_loop_running() { 1 } else { 0 }, 0);
+                    let r = catch_unwind(AssertUnwindSafe(|| s.close()));
+                    let code = res_code(r);
+                    trace::mark(27, code as i64, 0);
+                    res.push(code);
+                }
+            }
+            15 => {
+                if let Some(s) = strm.take() {
+                    trace::mark(28, if s.is_loop_running() { 1 } else { 0 }, 0);
+                    let r = catch_unwind(AssertUnwindSafe(move || drop(s)));
+                    trace::mark(29, if r.is_ok() { 0 } else { 2 }, 0);
+                    res.push(if r.is_ok() { 0 } else { 2 });
+                }
+            }
+            16 => {
+                if !wait(&|| got.load(Ordering::SeqCst) >= a as usize) {
+                    waits_timed_out += 1;
+                }
+            }
+            17 => {
+                let bytes: Vec<u8> = (0..b as usize).map(|i| ((d as u128 >> (8 * i)) & 255) as u8).collect();
+                world.lock().unwrap().mem_write(a as u64, &bytes);
+            }
+            _ => panic!("bad controller op"),
+        }
+    }
+    // implicit end of every case: stop a loop that is still running, let the receiver finish
+    if let Some(s) = strm.as_mut() {
+        if s.is_loop_running() {
+            trace::mark(22, 1, 0);
+            let r = catch_unwind(AssertUnwindSafe(|| s.stop_streaming_loop()));
+            let code = res_code(r);
+            trace::mark(23, code as i64, 0);
+            res.push(code);
+        }
+    }
+    done.store(true, Ordering::SeqCst);
+    let ro = rt.join().unwrap_or(RecvOut { items: vec![2], nitems: 1, held: vec![] });
+    if let Some(s) = strm.take() {
+        // the loop has been stopped: dropping the handle closes the channel (and waits for the
+        // loop thread to release it)
+        trace::mark(28, 0, 0);
+        drop(s);
+        trace::mark(29, 0, 0);
+    }
+    drop(sender);
+    let ev = trace::end();
+    std::mem::forget(ctrl);
+
+    let mut out = vec![0, ro.nitems as i128];
+    out.extend(ro.items);
+    out.push(-4);
+    out.push(ro.held.len() as i128);
+    out.extend(ro.held);
+    out.push(-3);
+    out.push(res.len() as i128);
+    out.extend(res);
+    out.push(-5);
+    out.push(ev.len() as i128);
+    for e in &ev {
+        out.extend(e.iter().map(|v| *v as i128));
+    }
+    out.push(-6);
+    out.push(world.lock().unwrap().transfers.len() as i128);
+    out.push(waits_timed_out);
+    out
 }
